@@ -78,8 +78,11 @@ def cases(draw, max_n=45):
     for m in members:
         if own and draw(st.integers(0, 2)) > 0:
             m["kw"]["timeframe"] = own if draw(st.integers(0, 3)) else draw(st.sampled_from(("T10", "T15")))
-            if draw(st.integers(0, 3)) == 0:
+            spell = draw(st.integers(0, 5))
+            if spell == 0:
                 m["kw"]["timeframe"] = m["kw"]["timeframe"].lower()  # the same timeframe in lower case
+            elif spell == 1:
+                m["kw"]["timeframe"] = "enum:" + m["kw"]["timeframe"]  # ... or as the TimeFrame enum member
             if draw(st.integers(0, 2)) == 0:
                 m["kw"]["timeframe_fill"] = True
     step = draw(st.sampled_from((60, 150, 300))) if (tf or own) else 60
